@@ -58,8 +58,10 @@ Definition case_wf (rq : request) (t : tree) : bool :=
   wf_tree t && negb (match q_desc rq with [] => true | _ => false end) &&
   total_keys_b (q_desc rq) (all_matches t) && (0 <=? q_from rq) && (0 <=? q_size rq).
 
-(* "the facet size covers all buckets": no member left anything in Other and the union of the
-   members' buckets fits in the requested size *)
+(* "the facet size covers all buckets", decided from the members' results: no member trimmed its
+   list.  A member that trims lists exactly [size] buckets, so none did when the union of the listed
+   buckets is smaller than the size; or when it fits the size and no member has anything in Other
+   (a prefix-filtered terms facet has the filtered-out terms in Other without trimming) *)
 Fixpoint dedup (l : list bytes) : list bytes :=
   match l with
   | [] => []
@@ -72,8 +74,8 @@ Definition fres_buckets (fr : fres) : list bytes :=
   end.
 Definition facet_covered (t : tree) (ns : bytes * Z) : bool :=
   let frs := flat_map (fun lf => match facets_get (l_facets lf) (fst ns) with Some fr => [fr] | None => [] end) (leaves t) in
-  forallb (fun fr => f_other fr =? 0) frs &&
-  (zlen (dedup (flat_map fres_buckets frs)) <=? snd ns).
+  let n := zlen (dedup (flat_map fres_buckets frs)) in
+  (n <? snd ns) || (forallb (fun fr => f_other fr =? 0) frs && (n <=? snd ns)).
 Definition facets_covered (rq : request) (t : tree) : bool := forallb (facet_covered t) (q_fsizes rq).
 
 (* facet results are compared per requested facet: completely when the size covers all buckets;
